@@ -18,6 +18,7 @@ RULE = (
     "constraints and random expressions, with and without extra constraints; (passive) the monitor stays on while "
     "templates are built and simplified.  Non-trivial: the judged expression is not a literal BoolV; distinct by "
     "(site, expression hash, constraint hashes).  `False` answers are never judged."
+    " Session 4: truth queries on solvers derived from the judged one (blank_copy, merge, split, combine)."
 )
 ASSUMPTIONS = ["Z3 decides validity of the judged Bool expressions within the timeout (unknown answers are counted, not judged)"]
 
